@@ -262,6 +262,78 @@ for between in ("plain-context", "other-extension-tags", "nothing"):
              f"fresh same-options context {fresh_r[k][1:3]}",
              {"page": EXT_PAGES[k], "context_created_in_between": between}, "history-dependent")
     distinct.add(("ext-context", between))
+# ---- Lua half of the statement, inside the repository's own sandbox (stand-in for the one absent Scribunto library,
+# ustring): module-level state, globals and library-table writes of one invocation are not seen by later invocations or
+# pages.  A module stored under one of the names the sandbox RETAINS across pages for speed keeps its module-level
+# state by design: reported under its own identity (known finding)
+def lua_state_section():
+    global evaluations
+    from wikitextprocessor import luaexec
+    from bounded.c06_lua import USTRING_STUB
+    orig_loader = luaexec.lua_loader
+
+    def loader(c_, modname):
+        r_ = orig_loader(c_, modname)
+        return USTRING_STUB if (r_ is None and modname == "ustring:ustring") else r_
+    CNT = ("local p = {}\nlocal n = 0\nfunction p.f(frame) n = n + 1; return tostring(n) end\n"
+           "function p.g(frame) G_LEAK = (G_LEAK or 0) + 1; return tostring(G_LEAK) end\n"
+           "function p.s(frame) string.leak = (string.leak or 0) + 1; table.leak = (table.leak or 0) + 1; "
+           "return tostring(string.leak) .. tostring(table.leak) end\n"
+           "function p.d(frame) local d = mw.loadData('Module:cnt/data'); return tostring(d.x) end\nreturn p")
+    USER = "local p = {}\nfunction p.f(frame) return require('Module:%s').f(frame) end\nreturn p"
+    PAGES_L = {"plain": "{{#invoke:cnt|f}}{{#invoke:cnt|f}} {{#invoke:cnt|g}}{{#invoke:cnt|g}} {{#invoke:cnt|s}}{{#invoke:cnt|s}} {{#invoke:cnt|d}}",
+               "required": "{{#invoke:usercnt|f}}{{#invoke:usercnt|f}}{{#invoke:cnt|f}}",
+               "retained": "{{#invoke:table|f}}{{#invoke:usertable|f}}{{#invoke:usertable|f}}"}
+
+    def mk(k):
+        with quiet_stdout():
+            c_ = Wtp(db_path=os.path.join(TMP, "lua%d.db" % k), quiet=True)
+        ns_ = c_.NAMESPACE_DATA["Module"]["id"]
+        for nm, body in (("cnt", CNT), ("table", CNT), ("cnt/data", "return { x = 1 }"), ("usercnt", USER % "cnt"), ("usertable", USER % "table")):
+            c_.add_page("Module:" + nm, ns_, body, model="Scribunto")
+        c_.db_conn.commit()
+        return c_
+
+    def one(c_, title, key):
+        c_.start_page(title)
+        with quiet_stdout():
+            return c_.expand(PAGES_L[key])
+    luaexec.lua_loader = loader
+    try:
+        long_ctx = mk(0)
+        k_ = 1
+        for title, key in (("A", "plain"), ("B", "required"), ("C", "plain"), ("D", "retained"), ("E", "required"), ("F", "retained"), ("G", "plain")):
+            got = one(long_ctx, title, key)
+            fr = mk(k_)
+            k_ += 1
+            want = one(fr, title, key)
+            fr.db_conn.close()
+            evaluations += 1
+            if "Lua execution error" in want or "error" in want.lower():
+                fail("c09:lua-state#probe-modules-run", f"page {key}: {want[:200]!r}", {"page": PAGES_L[key]}, "harness")
+                return
+            if got != want:
+                if key == "retained":
+                    fail("c09:lua-state#invocation-equals-fresh-context[retained-module-name]",
+                         f"page {title} ({PAGES_L[key]}) on a long-lived context gives {got!r}, on a fresh context {want!r}",
+                         {"page": PAGES_L[key], "history": "pages A.." + title}, "known-deviation:retained-module-keeps-module-level-state")
+                else:
+                    fail("c09:lua-state#invocation-equals-fresh-context",
+                         f"page {title} ({PAGES_L[key]}) on a long-lived context gives {got!r}, on a fresh context {want!r}",
+                         {"page": PAGES_L[key], "history": "pages A.." + title}, "history-dependent")
+            if key == "plain" and want != "11 11 1111 1":
+                fail("c09:lua-state#state-of-one-invocation-invisible-to-the-next",
+                     f"two invocations of a stateful module on one page give {want!r} (each should start from the module's initial state)",
+                     {"page": PAGES_L[key]}, "history-dependent")
+            distinct.add(("lua-state", title))
+        long_ctx.db_conn.close()
+    except Exception as ex:
+        fail("c09:lua-state#probe-modules-run", f"{type(ex).__name__}: {ex}", {}, "harness")
+    finally:
+        luaexec.lua_loader = orig_loader
+
+
+lua_state_section()
 samples.append({"history": [PAGES[0], PAGES[3], PAGES[4]]})
 import shutil
 shutil.rmtree(TMP, ignore_errors=True)
